@@ -199,6 +199,9 @@ class Run:
                 unlisted.append(v)
             else:
                 seen_known.setdefault(hit["id"], [hit, 0])[1] += 1
+                if os.environ.get("VP_DUMP_KNOWN"):   # diagnostic: what exactly the listed findings absorbed in this run
+                    with open(os.environ["VP_DUMP_KNOWN"], "a") as f:
+                        f.write(json.dumps({"id": hit["id"], "rule": v["rule"], "sig": v["sig"], "detail": str(v["detail"])[:300]}, default=str) + "\n")
         wall = time.time() - self.t0
         cov = {
             "evaluations": int(res.evaluations),
